@@ -175,10 +175,10 @@ def run_c02(tier, seed, rep):
     SC.S()
     r, by, maximal, by2, max2 = universe(seed, quick)
     rnd = random.Random(seed)
-    pairs = pairs_from(by, maximal, rnd, 60 if quick else 3000, 20 if quick else 600)
+    pairs = pairs_from(by, maximal, rnd, 40 if quick else 3000, 12 if quick else 600)
     max2s = sorted(max2, key=lambda h: -len(h))[:8 if quick else 300]
     pairs += pairs_from(H.sub(by2, max2s), max2s, rnd,
-                        80 if quick else 6000, 30 if quick else 1500)
+                        50 if quick else 6000, 16 if quick else 1500)
     import schema_features as SF
     pairs += SF.pairs()
     n = 0
@@ -297,7 +297,7 @@ def run_c10(tier, seed, rep):
     r, by, maximal, by2, max2 = universe(seed, quick)
     rnd = random.Random(seed)
     max2s = sorted(max2, key=lambda h: -len(h))[:40 if quick else 1500]
-    chains = chains_from(H.sub(by2, max2s), max2s, rnd, 48 if quick else 2500)
+    chains = chains_from(H.sub(by2, max2s), max2s, rnd, 28 if quick else 2500)
     import schema_features as SF
     chains += SF.chains()
     n = 0
@@ -441,8 +441,8 @@ def run_c03(tier, seed, rep):
     SC.S()
     r, by, maximal, by2, max2 = universe(seed, quick)
     rnd = random.Random(seed)
-    schemas = distinct_states(by, rnd, 16 if quick else 400, False) + \
-        distinct_states(by2, rnd, 40 if quick else 2500)
+    schemas = distinct_states(by, rnd, 10 if quick else 400, False) + \
+        distinct_states(by2, rnd, 22 if quick else 2500)
     import schema_features as SF
     schemas += SF.all_schemas()
     schemas += [('DDL', h) for h in SF.DDL_HISTORIES]
@@ -573,7 +573,7 @@ def run_c11(tier, seed, rep):
     rnd = random.Random(seed)
     schemas = [s for s in distinct_states(by2, rnd, 400 if quick else 6000)
                if sum(1 for t in s.values() if t['ex']) >= 2]
-    schemas = schemas[:40 if quick else 1500]
+    schemas = schemas[:24 if quick else 1500]
     import schema_features as SF
     schemas += SF.all_schemas()
     n = nperm = 0
